@@ -23,6 +23,7 @@ def base_consts():
         "XHdrs": {"absent"}, "AuthzHdrs": {"good"}, "Schemes": {"Bearer"},
         "TenantTables": {fs()}, "TenantHdrs": {""}, "SignedFor": {"default"},
         "ClaimSets": {fs()}, "HostLabels": {"e"}, "EpHeaders": {""}, "PathEps": {""},
+        "NoDiscs": {False},
     }
 
 
@@ -58,7 +59,10 @@ def c09(chk):
                 "key configuration a real two-node cluster with that authentication on all three ports; every "
                 "route of the REAL gin route tables (plus unregistered paths and admin forwarding) x every "
                 "single-defect token/header variation plus seeded mixes, sent as real HTTP requests with really "
-                "signed tokens; TLC (TraceAuth.tla) checks OnlyAcceptedRun and RejectedReachesNoUpstream")
+                "signed tokens; TLC (TraceAuth.tla) checks OnlyAcceptedRun and RejectedReachesNoUpstream; (3) time: a token "
+                "that expires in 3 s presented to every port before (twice) and after its expiry, and a token first "
+                "presented after its expiry, with and without disable_disconnect_on_expiry; (4) every route of an "
+                "upstream port that has a tenant table, with and without a default key, x missing/foreign/valid tokens")
     chk.assumptions = ["a handler behind the middleware ran iff the status is not 401",
                        "the JWKS of the test holds one RSA key (kid k1)", "HS256/RS256/ES256 stand for their families"]
     c = base_consts()
@@ -68,12 +72,13 @@ def c09(chk):
               "XHdrs": {"absent", "good", "bad"}, "AuthzHdrs": {"absent", "good", "bad"},
               "Schemes": {"Bearer", "bearer", "Basic", "none"}})
     if quick:
-        c.update({"Tampers": {"none", "sig"}, "Exps": {"absent", "past", "future"}, "Nbfs": {"absent", "future"},
+        c.update({"Tampers": {"none", "sig"}, "Exps": {"absent", "past", "future", "soon"}, "Nbfs": {"absent", "future"},
                   "TokAuds": {"absent", "A", "B"}, "TokIsss": {"absent", "I"}})
     else:
-        c.update({"Tampers": {"none", "header", "payload", "sig"}, "Exps": {"absent", "past", "future"},
+        c.update({"Tampers": {"none", "header", "payload", "sig"}, "Exps": {"absent", "past", "future", "soon"},
                   "Nbfs": {"absent", "past", "future"}, "TokAuds": {"absent", "A", "B"},
                   "TokIsss": {"absent", "I", "J"}})
+    c["NoDiscs"] = {False, True}
     model(chk, "C09-table", c, C09_INV)
     ks = [["HS"], ["RS"], ["JWKS"]] if quick else [["HS"], ["RS"], ["ES"], ["HS", "RS"], ["HS", "RS", "ES"], ["JWKS"]]
     sched = {"keySets": ks, "auds": ["", "A"] if not quick else [""], "isss": ["", "I"] if not quick else ["I"],
@@ -83,8 +88,9 @@ def c09(chk):
     chk.notes["executed_calls_by_action"] = st.get("by_op")
     chk.nontrivial = st.get("distinct_outcomes", 0)
     chk.rule += "; distinct_nontrivial = distinct (port, status, served) outcomes observed"
-    if st.get("by_op", {}).get("Auth", 0) == 0:
-        raise vp.Machinery("vacuous run")
+    for need in ("Auth", "TenantAuth"):
+        if st.get("by_op", {}).get(need, 0) == 0:
+            raise vp.Machinery("vacuous run: no " + need)
 
 
 @prop("C10")
